@@ -66,6 +66,7 @@ func rulesC07(c *Ctx) {
 	R.Rule("T", "crash / storage-fault table: abstract-store invariants at every reachable position and return", 14)
 	R.Rule("M", "model assumptions on the storage code: multi-row writes atomic, state updates unconditional", 8)
 	R.Rule("R5", "melt decision table (shared with C05.R1)", 20)
+	R.Rule("R6", "who may release locked inputs: only the melt operation and the melt-quote poll (shared with C05.R9) - a start-up or self-healing release does not know whether the payment went out", 3)
 	R.Rule("K", "keysets survive a restart: persisted rows carry the generated keyset's own index, fee and seed; start-up regenerates every keyset from its own row (shared with C09.R2)", 11)
 	c.ruleKeysetWiring("K")
 	c.vocabProblems("G")
@@ -215,6 +216,7 @@ func rulesC07(c *Ctx) {
 
 	// ---- R5: decision table
 	c.meltDecisionTable("R5", false)
+	c.ruleUnlockCallers("R6")
 }
 
 func (c *Ctx) c07Op(op *traceOp) {
